@@ -39,6 +39,22 @@ def variants_obs(args):
             out.append((st, v, "generated text differs"))
         else:
             out.append((st, v, None))
+    # a long run of directive lines between two tokens (no bound on how many may stand in one gap)
+    toks = [val for kind, val in us if kind == "tok"]
+    if toks and all(kind == "tok" for kind, _ in us):
+        j = rng.randrange(len(toks) + 1)
+        n = rng.choice([2, 17, 300, 1500, 1500])
+        run_ = "".join(rng.choice(['# %d "g.h"\n', '#line %d "g.h"\n', '# %d "g.h" 1 3\n', '\n# %d\n']) % (i + 1) for i in range(n))
+        v = " ".join(toks[:j]) + "\n" + run_ + " ".join(toks[j:]) + "\n"
+        r = py_parse_obj(v, "other.c")
+        if r[0] != "OK":
+            out.append(("markerrun", v, "variant with %d consecutive directive lines rejected: %s" % (n, r[1] if r[0] == "PE" else r[0])))
+        elif dump(r[1], False) != d0:
+            out.append(("markerrun", v, "AST differs"))
+        elif py_gen_text(r[1], False) != g0:
+            out.append(("markerrun", v, "generated text differs"))
+        else:
+            out.append(("markerrun", v, None))
     return out
 
 
@@ -46,7 +62,7 @@ def run(ctx):
     texts = [t for t in progs.pool(ctx, scale=0.5) if len(t) < 5000]
     rng = ctx.rng("seeds")
     args = [(t, rng.randrange(1 << 30)) for t in texts]
-    ctx.rule(progs.RULE + " x 6 re-layouts each (one token per line, single line, no blank wherever adjacency is allowed, random blanks/tabs/newlines, linemarkers changing line and file between arbitrary tokens, the same linemarker before every token so that all tokens share one coordinate); AST dump without coordinates and generated text must be identical; redundant-parenthesis variants are covered by C02's three parenthesisations against one expected AST")
+    ctx.rule(progs.RULE + " x 7 re-layouts each (one token per line, single line, no blank wherever adjacency is allowed, random blanks/tabs/newlines, linemarkers changing line and file between arbitrary tokens, the same linemarker before every token so that all tokens share one coordinate, a run of 2..1500 consecutive directive lines in one gap); AST dump without coordinates and generated text must be identical; redundant-parenthesis variants are covered by C02's three parenthesisations against one expected AST")
     res = pmap(variants_obs, args)
     vtexts = []
     keys = set()
